@@ -14,12 +14,13 @@ Families (details in notes/design-C19.md):
   group     ConsumerGroup join / leave / poll / commit under each assignment strategy
   relay     OutboxRelay -> IdempotencyStore -> sink (exactly-once forwarding)
   stream    StreamProcessor: every record fed in is emitted in a window result or accounted as late
+  sharedlog 1-3 EventLogs with pluggable sharding (one strategy object shared by logs of different size), interleaved appends
 """
 
 from __future__ import annotations
 
 from hsverif.c19_mq import gen_mq, run_mq, shrink_mq  # noqa: F401  (shrink_mq: used by hand for pinned witnesses)
-from hsverif.c19_stream import gen_eventlog, gen_group, gen_stream, run_eventlog, run_group, run_stream
+from hsverif.c19_stream import gen_eventlog, gen_group, gen_sharedlog, gen_stream, run_eventlog, run_group, run_sharedlog, run_stream
 from hsverif.c19_topic import gen_relay, gen_topic, run_relay, run_topic
 from hsverif.core import Family
 
@@ -34,7 +35,7 @@ RULE = (
     "consumers, timeouts for everything in flight, 2x polls) after which every message must be acknowledged or dead-lettered. "
     "Non-trivial: mq = at least one redelivery dispatched and one scripted membership change; topic = a subscription change "
     "and >=2 publishes with an active subscriber; eventlog = some partition received >=2 appends; group = >=2 rebalances with "
-    "a join and a leave; relay = >=2 entries over >=2 poll cycles; stream = >=2 records and an emitted window. Distinct by hash of the case."
+    "a join and a leave; relay = >=2 entries over >=2 poll cycles; stream = >=2 records and an emitted window; sharedlog = a key appended twice and >=3 switches between logs. Distinct by hash of the case."
 )
 ASSUMPTIONS = [
     "a consumer that unsubscribes while a delivery is already on the wire may still receive it (checked: subscribed at the dispatch instant = receipt - delivery_latency)",
@@ -47,7 +48,7 @@ ASSUMPTIONS = [
     "Topic replay deliveries (is_replay=True) are not counted against exactly-once",
     "bounded 'eventually': the drain issues 2*(n_published*(max_redeliveries+3)+4) polls spaced > delivery latency and waits one redelivery delay twice",
 ]
-MUST_OBSERVE = ["deliveries_received", "accounting_checks", "fanout_pairs_checked", "appends_checked", "rebalances_checked", "entries_checked", "records_checked"]
+MUST_OBSERVE = ["deliveries_received", "accounting_checks", "fanout_pairs_checked", "appends_checked", "rebalances_checked", "entries_checked", "records_checked", "shared_appends_checked"]
 
 FAMILIES = {
     "mq": Family("mq", gen_mq, run_mq, case_timeout=60.0),
@@ -56,9 +57,10 @@ FAMILIES = {
     "group": Family("group", gen_group, run_group),
     "relay": Family("relay", gen_relay, run_relay),
     "stream": Family("stream", gen_stream, run_stream),
+    "sharedlog": Family("sharedlog", gen_sharedlog, run_sharedlog),
 }
 
 BUDGET = {
-    "quick": {"mq": 1500, "topic": 600, "eventlog": 500, "group": 600, "relay": 400, "stream": 300},
-    "thorough": {"mq": 200000, "topic": 60000, "eventlog": 40000, "group": 60000, "relay": 30000, "stream": 20000},
+    "quick": {"mq": 1500, "topic": 600, "eventlog": 500, "group": 600, "relay": 400, "stream": 300, "sharedlog": 300},
+    "thorough": {"mq": 200000, "topic": 60000, "eventlog": 40000, "group": 60000, "relay": 30000, "stream": 20000, "sharedlog": 30000},
 }
